@@ -24,7 +24,23 @@ from . import revfake
 
 
 class Boom(Exception):
-    """the failure oracle's exception"""
+    """the failure oracle's exception (kind "exception")"""
+
+
+class BoomBase(BaseException):
+    """a BaseException that is not an Exception (kind "baseException")"""
+
+
+class BoomInterrupt(KeyboardInterrupt):
+    """marked subclasses so that the harness recognises its own injected failure"""
+
+
+class BoomExit(SystemExit):
+    pass
+
+
+KINDS = {"exception": Boom, "keyboardInterrupt": BoomInterrupt, "systemExit": BoomExit, "baseException": BoomBase}
+INJECTED = (Boom, BoomBase, BoomInterrupt, BoomExit)
 
 
 def sql_of(stmt):
@@ -123,7 +139,7 @@ class Oracle:
     def __init__(self, bodies, rev_index, fail):
         self.bodies = bodies  # rid -> {"up": segs, "down": segs}
         self.rev_index = rev_index
-        self.fail = fail  # (k, pos) or None
+        self.fail = fail  # (k, pos) or (k, pos, kind) or None; kind in KINDS, default "exception"
         self.step = -1  # index of the step whose body was entered last
         self.pos = 0  # atoms executed in the current step
         self.steps = []  # [{"rid","dir","vstmts":[...]}]
@@ -133,7 +149,7 @@ class Oracle:
 
     def _tick(self):
         if self.fail is not None and self.fail[0] == self.step and self.fail[1] == self.pos:
-            raise Boom()
+            raise KINDS[self.fail[2] if len(self.fail) > 2 else "exception"]()
 
     def body(self, rid, direction):
         self.step += 1
@@ -214,9 +230,9 @@ def run_inprocess(path, hist, bodies, rev_index, cmd, target, config, fail):
                 with ctx.begin_transaction():
                     ctx.run_migrations()
         res = "ok"
-    except Boom:
+    except INJECTED:
         res = "boom"
-    except Exception as e:  # resolution errors, assertion of autocommit_block in an external transaction ...
+    except BaseException as e:  # resolution errors, assertion of autocommit_block in an external transaction ...
         res = "err:" + revfake.exc_class(e)
     finally:
         eng.dispose()
@@ -304,9 +320,9 @@ def run_command(cfg, bodies, rev_index, cmd, target, engine_mode, fail):
         else:
             command.downgrade(cfg, target)
         res = "ok"
-    except Boom:
+    except INJECTED:
         res = "boom"
-    except Exception as e:
+    except BaseException as e:
         res = "err:" + revfake.exc_class(e)
     finally:
         for r in removers:
